@@ -63,7 +63,13 @@ impl Rng {
     }
     pub fn mask(&mut self) -> [u8; 4] {
         let x = self.next();
-        [x as u8, (x >> 8) as u8, (x >> 16) as u8, (x >> 24) as u8]
+        // now and then the all-zero key, or a key with zero bytes (valid keys like any other)
+        match (x >> 32) % 24 {
+            0 => [0, 0, 0, 0],
+            1 => [x as u8, 0, 0, (x >> 24) as u8],
+            2 => [0, (x >> 8) as u8, 0, 0],
+            _ => [x as u8, (x >> 8) as u8, (x >> 16) as u8, (x >> 24) as u8],
+        }
     }
     pub fn fork(&mut self) -> Rng {
         Rng(self.next())
